@@ -245,7 +245,7 @@ def builtin(it, name):
         "zip": lambda *a: list(zip(*[list(it.iterate(x)) for x in a])),
         "range": range, "slice": slice, "iter": lambda x: iter(it.iterate(x)),
         "filter": lambda f, xs: [x for x in it.iterate(xs) if (_ai().truth(x) if f is None else _ai().truth(it.call(f, [x], {})))],
-        "map": lambda f, *xs: [it.call(f, list(a), {}) for a in zip(*[list(it.iterate(x)) for x in xs])],
+        "map": lambda f, *xs: _ai().GenList(it.call(f, list(a), {}) for a in zip(*[list(it.iterate(x)) for x in xs])),
         "any": lambda xs: any(_ai().truth(x) for x in it.iterate(xs)),
         "all": lambda xs: all(_ai().truth(x) for x in it.iterate(xs)),
         "list": lambda x=(): list(it.iterate(x)), "tuple": lambda x=(): tuple(it.iterate(x)),
@@ -267,6 +267,12 @@ def builtin(it, name):
         pytype = {"int": int, "float": float, "str": str, "list": list, "tuple": tuple, "dict": dict, "bool": bool, "set": set}[name]
         fn = table[name]
         return _TypeProxy(pytype, fn)
+    if name == "bytes":
+        def mk_bytes(x=b"", *a):
+            if isinstance(x, (bytes, bytearray)) or (isinstance(x, str) and a):
+                return bytes(x, *a) if isinstance(x, str) else bytes(x)
+            raise Undecided("bytes() of an abstract value")
+        return _TypeProxy(bytes, mk_bytes)
     return table.get(name, NotImplemented)
 
 
